@@ -187,10 +187,12 @@ Proof.
   try (apply continue_overflow_A in H; [exact H|unfold InvA; cbn; exact HA|cbn; exact Ho|cbn; exact Hd]).
 Qed.
 
-Lemma step_A s f ag s' ag' : InvA s (f :: ag) -> step s f ag = (s', ag') -> InvA s' ag'.
+Lemma step_A s f ag s' ag' :
+  InvA s (f :: ag) -> h_destroying s = false -> step s f ag = (s', ag') -> InvA s' ag'.
 Proof.
-  intros HA H.
-  destruct f as [[cb|full cb| | |r|]| | |]; cbn [step do_op] in H; unfold InvA in HA; cbn [ndone] in HA.
+  intros HA Hnd H.
+  destruct f as [[cb|full cb| | |r|]| | | |]; cbn [step do_op] in H; rewrite ?Hnd in H; cbn [negb andb] in H;
+    rewrite ?andb_true_r in H; unfold InvA in HA; cbn [ndone] in HA.
   - destruct (s_max s <=? len (s_queue s)).
     + inversion H; subst. unfold InvA. cbn. rewrite ndone_app, ndone_fop. exact HA.
     + eapply take_next_A; [|exact H]. unfold InvA. cbn. apply AP_qapp. exact HA.
@@ -210,4 +212,161 @@ Proof.
   - eapply take_next_A; [|exact H]. exact HA.
   - inversion H; subst. unfold InvA. cbn. exact HA.
   - eapply take_next_A; [|exact H]. unfold InvA. cbn. eapply AP_discdone. exact HA.
+  - inversion H; subst. exact HA.
+Qed.
+
+(* ---- destruction ---- *)
+Lemma mock_send_hd id s ag s' ag' : mock_send id s ag = (s', ag') -> h_destroying s' = h_destroying s.
+Proof.
+  unfold mock_send, note_call. intros H. cbn in H.
+  destruct (h_paused s); cbn in H; destruct (m_script s) as [|[r|] ms]; inversion H; subst; reflexivity.
+Qed.
+Lemma maybe_send_hd s ag s' ag' : maybe_send s ag = (s', ag') -> h_destroying s' = h_destroying s.
+Proof.
+  unfold maybe_send. destruct (s_queue s) as [|[id cb] q]; intros H.
+  - inversion H; subst; reflexivity.
+  - apply mock_send_hd in H. exact H.
+Qed.
+Lemma start_disc_hd s ag s' ag' : start_disc s ag = (s', ag') -> h_destroying s' = h_destroying s.
+Proof.
+  unfold start_disc, note_call. intros H. cbn in H.
+  destruct (h_paused s); cbn in H; destruct (m_dscript s) as [|[|] ds]; inversion H; subst; reflexivity.
+Qed.
+Lemma take_next_hd s ag s' ag' : take_next s ag = (s', ag') -> h_destroying s' = h_destroying s.
+Proof.
+  unfold take_next. intros H.
+  destruct (negb (s_active s) || s_pending s || negb (is_nil (s_rdisc s))).
+  - inversion H; subst; reflexivity.
+  - destruct (negb (is_nil (s_pdisc s))); [eapply start_disc_hd|eapply maybe_send_hd]; eauto.
+Qed.
+Lemma continue_overflow_hd s ag s' ag' :
+  continue_overflow s ag = (s', ag') -> h_destroying s' = h_destroying s.
+Proof.
+  unfold continue_overflow. destruct (s_active s); intros H.
+  - eapply maybe_send_hd; eauto.
+  - inversion H; subst; reflexivity.
+Qed.
+Lemma run_callback_hd rep parts fr s ag s' ag' :
+  run_callback rep parts fr s ag = (s', ag') -> h_destroying s' = h_destroying s.
+Proof.
+  unfold run_callback. intros H. destruct (s_queue s) as [|[id cb] q]; inversion H; subst; reflexivity.
+Qed.
+Lemma handle_hd from rep s ag s' ag' : handle from rep s ag = (s', ag') -> h_destroying s' = h_destroying s.
+Proof.
+  unfold handle. intros H.
+  destruct (is_nil (s_queue (set_s_pending false s))).
+  { inversion H; subst. reflexivity. }
+  repeat match type of H with
+  | context [match ?x with _ => _ end] => destruct x eqn:?
+  end;
+  try (apply run_callback_hd in H; exact H);
+  try (apply continue_overflow_hd in H; exact H).
+Qed.
+Lemma step_hd s f ag s' ag' : step s f ag = (s', ag') -> h_destroying s' = h_destroying s.
+Proof.
+  intros H. destruct f as [[cb|full cb| | |r|]| | | |]; cbn [step do_op] in H.
+  - destruct (s_max s <=? len (s_queue s)).
+    + inversion H; subst; reflexivity.
+    + apply take_next_hd in H. exact H.
+  - destruct (s_discov s && negb (h_destroying s)).
+    + apply take_next_hd in H. exact H.
+    + inversion H; subst; reflexivity.
+  - inversion H; subst; reflexivity.
+  - apply take_next_hd in H. exact H.
+  - destruct (h_destroying s) eqn:E; [inversion H; subst; exact E|].
+    destruct (m_out s).
+    + inversion H; subst; exact E.
+    + apply handle_hd in H. rewrite H. exact E.
+  - destruct (h_destroying s) eqn:E; [inversion H; subst; exact E|].
+    destruct (m_dout s).
+    + inversion H; subst; exact E.
+    + unfold disc_complete in H. inversion H; subst. exact E.
+  - apply take_next_hd in H. exact H.
+  - inversion H; subst; reflexivity.
+  - apply take_next_hd in H. exact H.
+  - destruct (h_destroying s) eqn:E.
+    + unfold destroy_next in H. destruct (s_queue s) as [|[id cb] q]; inversion H; subst; exact E.
+    + inversion H; subst; exact E.
+Qed.
+
+Lemma take_next_blocked s ag : s_pending s = true -> take_next s ag = (s, ag).
+Proof. unfold take_next. intros ->. rewrite orb_true_r. reflexivity. Qed.
+
+(* while the destructor runs: sending is blocked, the mock's lists do not change, the agenda holds
+   only user operations and the destructor's loop, which is its last frame until the queue is empty *)
+Definition AD (s : st) : Prop :=
+  s_pending s = true /\ len (m_out s) + len (m_dout s) <= 1 /\ g_conc s <= 1 /\ g_fatal s = false.
+Definition dframe (f : frame) : Prop := match f with FOp _ | FDestroy => True | _ => False end.
+Definition dag (ag : list frame) : Prop := Forall dframe ag.
+Definition dend (s : st) (ag : list frame) : Prop :=
+  (exists pre, ag = pre ++ [FDestroy]) \/ (ag = [] /\ s_queue s = []).
+
+Definition InvA2 (s : st) (ag : list frame) : Prop :=
+  (h_destroying s = false /\ InvA s ag) \/
+  (h_destroying s = true /\ AD s /\ dag ag /\ dend s ag).
+
+Lemma dag_fop cb : dag (map FOp cb).
+Proof. unfold dag. induction cb; cbn; constructor; cbn; auto. Qed.
+Lemma dend_tail s f ag : f <> FDestroy -> dend s (f :: ag) -> exists pre, ag = pre ++ [FDestroy].
+Proof.
+  intros Hf [(pre & E)|[E _]]; [|discriminate].
+  destruct pre as [|x pre]; cbn in E; inversion E; subst; [congruence|eauto].
+Qed.
+Lemma dend_push (s' : st) X ag : (exists pre, ag = pre ++ [FDestroy]) -> dend s' (X ++ ag).
+Proof. intros (pre & ->). left. exists (X ++ pre). rewrite app_assoc. reflexivity. Qed.
+
+Lemma step_AD s f ag s' ag' :
+  h_destroying s = true -> AD s -> dag (f :: ag) -> dend s (f :: ag) -> step s f ag = (s', ag') ->
+  AD s' /\ dag ag' /\ dend s' ag'.
+Proof.
+  intros Hd (Hp & Hl & Hc & Hf) Hdag Hend H. unfold dag in Hdag. inversion Hdag as [|? ? Hdf Hdag']; subst.
+  destruct f as [[cb|full cb| | |r|]| | | |]; cbn in Hdf; try contradiction; cbn [step do_op] in H;
+    rewrite ?Hd in H; cbn [negb andb] in H; rewrite ?andb_false_r in H.
+  - assert (Ht : exists pre, ag = pre ++ [FDestroy]) by (eapply dend_tail; [|exact Hend]; discriminate).
+    destruct (s_max s <=? len (s_queue s)).
+    + inversion H; subst. split; [unfold AD; cbn; auto|]. split.
+      * apply Forall_app; split; [apply dag_fop|exact Hdag'].
+      * apply dend_push; exact Ht.
+    + rewrite take_next_blocked in H by (cbn; exact Hp). inversion H; subst.
+      split; [unfold AD; cbn; auto|]. split; [exact Hdag'|]. apply (dend_push _ [] _ Ht).
+  - assert (Ht : exists pre, ag = pre ++ [FDestroy]) by (eapply dend_tail; [|exact Hend]; discriminate). inversion H; subst.
+    split; [unfold AD; auto|]. split; [exact Hdag'|]. apply (dend_push _ [] _ Ht).
+  - assert (Ht : exists pre, ag = pre ++ [FDestroy]) by (eapply dend_tail; [|exact Hend]; discriminate). inversion H; subst.
+    split; [unfold AD; cbn; auto|]. split; [exact Hdag'|]. apply (dend_push _ [] _ Ht).
+  - assert (Ht : exists pre, ag = pre ++ [FDestroy]) by (eapply dend_tail; [|exact Hend]; discriminate).
+    rewrite take_next_blocked in H by (cbn; exact Hp). inversion H; subst.
+    split; [unfold AD; cbn; auto|]. split; [exact Hdag'|]. apply (dend_push _ [] _ Ht).
+  - assert (Ht : exists pre, ag = pre ++ [FDestroy]) by (eapply dend_tail; [|exact Hend]; discriminate). inversion H; subst.
+    split; [unfold AD; auto|]. split; [exact Hdag'|]. apply (dend_push _ [] _ Ht).
+  - assert (Ht : exists pre, ag = pre ++ [FDestroy]) by (eapply dend_tail; [|exact Hend]; discriminate). inversion H; subst.
+    split; [unfold AD; auto|]. split; [exact Hdag'|]. apply (dend_push _ [] _ Ht).
+  - unfold destroy_next in H. destruct (s_queue s) as [|[id cb] q] eqn:Eq.
+    + inversion H; subst. split; [unfold AD; auto|]. split; [exact Hdag'|].
+      destruct Hend as [(pre & E)|[E _]]; [|discriminate].
+      destruct pre as [|x pre]; cbn in E; inversion E; subst.
+      * right. split; [reflexivity|exact Eq].
+      * left. exists pre. reflexivity.
+    + inversion H; subst. split; [unfold AD; cbn; auto|]. split.
+      * apply Forall_app; split; [apply dag_fop|]. constructor; [exact I|exact Hdag'].
+      * left. destruct Hend as [(pre & E)|[E _]]; [|discriminate].
+        destruct pre as [|x pre]; cbn in E; inversion E; subst.
+        -- exists (map FOp cb). reflexivity.
+        -- exists (map FOp cb ++ FDestroy :: pre). rewrite <- app_assoc. reflexivity.
+Qed.
+
+Lemma step_A2 s f ag s' ag' : InvA2 s (f :: ag) -> step s f ag = (s', ag') -> InvA2 s' ag'.
+Proof.
+  intros [[Hnd HA]|(Hd & HAD & Hdag & Hend)] H.
+  - left. split; [rewrite (step_hd _ _ _ _ _ H); exact Hnd|]. eapply step_A; eauto.
+  - right. split; [rewrite (step_hd _ _ _ _ _ H); exact Hd|]. eapply step_AD; eauto.
+Qed.
+
+Lemma InvA2_destroy s : h_destroying s = false -> InvA s [] -> InvA2 (start_destroy s) [FDestroy].
+Proof.
+  intros Hnd (HO & HD & _ & _ & Hc & Hf). right. split; [reflexivity|].
+  split.
+  { unfold AD, start_destroy; cbn. split; [reflexivity|]. split; [|auto].
+    destruct HO as [[Ho _]|(i & cb & rest & Ho & _ & Hdd & _)]; destruct HD as [Hd|(x & Hd & _ & _)];
+      try congruence; rewrite Ho, Hd; cbn; lia. }
+  split; [repeat constructor|]. left. exists []. reflexivity.
 Qed.
